@@ -293,9 +293,10 @@ def run(tier, seed):
     mc = side["mc"]
     # (C)
     trace = os.path.join(vlib.sub("traces"), "txn.ndjson")
-    ntr, ln = (60, 40) if tier == "quick" else (800, 60)
+    # CLI-mode traces open badger + sqlite files for every operation: few of them
+    ntr, ln, cli = (60, 40, 5) if tier == "quick" else (600, 60, 25)
     p = vlib.run_record(ENGINE, ["--seed", str(seed), "--n", str(ntr), "--len", str(ln), "--out", trace,
-                                 "--dir", vlib.sub("txnrepos"), "--cli-every", "5"], timeout=2400)
+                                 "--dir", vlib.sub("txnrepos"), "--cli-every", str(cli)], timeout=2400)
     if p.returncode != 0:
         raise vlib.Inconclusive("recorder failed: " + p.stderr[-2000:])
     cfg = trace_cfg("TraceTxn.known.cfg", sorted(DEV_SIG))
@@ -406,8 +407,11 @@ def replay(path):
         p = vlib.run_record(ENGINE, ["--reexec", ops, "--out", t, "--dir", vlib.sub("txnrepos")])
         if p.returncode != 0:
             raise vlib.Inconclusive("re-execution failed: " + p.stderr[-2000:])
-        # no named deviation here: a replay file reports the raw behaviour
-        n_traces, n_events, rejections, devs, last, traces = validate(t, trace_cfg("TraceTxn.strict.cfg", []))
+        # the replay of a named-deviation witness reports the raw behaviour (no deviation
+        # admitted); the replay of a rejected trace admits the named deviations as the run did,
+        # so that it fails iff the rejection itself persists
+        known = [] if doc.get("deviation") else sorted(DEV_SIG)
+        n_traces, n_events, rejections, devs, last, traces = validate(t, trace_cfg("TraceTxn.replay.cfg", known))
         if rejections:
             print("VIOLATION property=%s replay=%s" % (PROP, path))
             return 1
